@@ -287,9 +287,11 @@ fn gen_lib(c: &mut Chooser) -> Case {
     }
     // cell names that differ only in letter case (c0_top / C0_TOP-like pairs): the second cell becomes the upper-case
     // spelling of the first one's name
-    if n >= 2 && c.cost(2, "cell-names-differ-in-case-only") == 1 {
+    // (option 2: the second cell goes by a name of 44 characters instead)
+    let name_alt = if n >= 2 { c.cost(3, "cell-names-differ-in-case-only") } else { 0 };
+    if name_alt != 0 {
         tags.push("names:case-variants");
-        let upper = CELL_NAMES[0].to_uppercase();
+        let upper = if name_alt == 1 { CELL_NAMES[0].to_uppercase() } else { format!("a_cell_name_longer_than_thirty_two_characters_{}", 1) };
         let old = CELL_NAMES[1];
         for cell in cells.iter_mut() {
             if cell.name == old {
@@ -574,7 +576,7 @@ impl CaseDriver for C07Lib {
     fn describe(&self, tier: Tier) -> Describe {
         Describe {
             rule: format!(
-                "raw libraries of 1..3 cells (chain c0 -> c1 -> c2) listed in every order; every instance in all 8 orientations (free); the last cell holds a focus shape: family {FAMILIES:?} (free) x (layer, purpose) in 2 layers x 2 purposes plus obstruction, outline and label purposes and layers numbered 1000 and 32767 (free) x net absent / lower-case / Mixed-Case (free); costed (deviation bound {}): shape variant within the family (both corner orders and mixed corners of rectangles, start vertex and direction of polygons, 1..3 segment paths, widths 2/3/4), units Nano/Micro/Angstrom/Pico, instance offsets {LOCS:?}, angle None vs Some(0), a second placement (elsewhere / on the same origin in another orientation), the top also placing the leaf, named non-leaf shape, a second shape (unnamed same layer+purpose / named same layer other purpose / named other layer same place / named listed first / a named 2x2 neighbour one unit outside the shape's flush bounding box on each side, level with its first or last point, listed before or after; or a neighbour one unit thick starting right after the true extent of the shape, a path then given an odd width; or a differently named small rectangle inside a focus rectangle, listed after it), unit-wide rectangles at negative coordinates, width-1 / backwards-drawn / ring / out-and-back paths (variants of the families), a blank cell (unreferenced / instantiated), two cells whose names differ only in letter case. Non-trivial = has an instance or a net.",
+                "raw libraries of 1..3 cells (chain c0 -> c1 -> c2) listed in every order; every instance in all 8 orientations (free); the last cell holds a focus shape: family {FAMILIES:?} (free) x (layer, purpose) in 2 layers x 2 purposes plus obstruction, outline and label purposes and layers numbered 1000 and 32767 (free) x net absent / lower-case / Mixed-Case (free); costed (deviation bound {}): shape variant within the family (both corner orders and mixed corners of rectangles, start vertex and direction of polygons, 1..3 segment paths, widths 2/3/4), units Nano/Micro/Angstrom/Pico, instance offsets {LOCS:?}, angle None vs Some(0), a second placement (elsewhere / on the same origin in another orientation), the top also placing the leaf, named non-leaf shape, a second shape (unnamed same layer+purpose / named same layer other purpose / named other layer same place / named listed first / a named 2x2 neighbour one unit outside the shape's flush bounding box on each side, level with its first or last point, listed before or after; or a neighbour one unit thick starting right after the true extent of the shape, a path then given an odd width; or a differently named small rectangle inside a focus rectangle, listed after it), unit-wide rectangles at negative coordinates, width-1 / backwards-drawn / ring / out-and-back paths (variants of the families), a blank cell (unreferenced / instantiated), two cells whose names differ only in letter case, a cell name of more than 32 characters. Non-trivial = has an instance or a net.",
                 self.bound(tier)
             ),
             assumptions: assumptions(),
